@@ -34,47 +34,116 @@ theorem loadFormat_pack8 (n : Nat) (h : n < 128) (rest : Bytes) (hr : rest ≠ [
 theorem drop_pack8 (n : Nat) (h : n < 128) (rest : Bytes) : (pack8 n ++ rest).drop 1 = rest := by
   simp [pack8_small n h]
 
-/-! ### table facts (regenerated tables) -/
+/-! ### table facts (regenerated tables)
 
-/-- Every dumpable format id resolves to a format that both switches send to the same codec, is a one-byte
-    identifier, is itself a valid serialization format, and is not RAW. -/
-theorem dumpable_table :
-    ∀ f ∈ dumpableFormats,
-      validateSerializationFormat f = some (resolve f) ∧
-      validateSerializationFormat (resolve f) = some (resolve f) ∧
-      (libOf (resolve f)).isSome = true ∧
-      lookup (resolve f) loadDispatch = lookup (resolve f) dumpDispatch ∧
-      resolve f < 128 ∧ resolve f ≠ RAW := by
+The `*_table0` lemmas are `decide`d over the regenerated tables with the default variables set to 0; the lemmas
+without `0` lift them to every value of the variables (a label that is not in the AUTO case set never reads them). -/
+
+theorem validateSer_nonAuto (d d' f : Nat) (h : f ∉ serializationAuto) :
+    validateSerializationFormat d f = validateSerializationFormat d' f := by
+  simp [validateSerializationFormat, h]
+
+theorem validateComp_nonAuto (d d' f : Nat) (h : f ∉ compressionAuto) :
+    validateCompressionFormat d f = validateCompressionFormat d' f := by
+  simp [validateCompressionFormat, h]
+
+theorem auto_table : AUTO ∈ serializationAuto ∧ AUTO ∈ compressionAuto := by decide
+
+theorem validateSer_auto (d : Nat) : validateSerializationFormat d AUTO = some d := by
+  simp [validateSerializationFormat, auto_table.1]
+
+theorem validateComp_auto (d : Nat) : validateCompressionFormat d AUTO = some d := by
+  simp [validateCompressionFormat, auto_table.2]
+
+theorem codec_table0 :
+    ∀ g ∈ codecFormats,
+      validateSerializationFormat 0 g = some g ∧ g ∉ serializationAuto ∧ (libOf g).isSome = true ∧
+      lookup g loadDispatch = lookup g dumpDispatch ∧ g < 128 ∧ g ≠ RAW ∧ g ≠ AUTO := by
   decide
 
-theorem raw_table :
-    validateSerializationFormat RAW = some RAW ∧ lookup RAW dumpDispatch = some .raw ∧
+/-- Every dumpable format id resolves (whatever the default is, as long as AUTO stands for a codec format) to a
+    format that both switches send to the same codec, is a one-byte identifier, is itself a valid serialization
+    format under every value of the default, and is not RAW. -/
+theorem dumpable_table (d f : Nat) (hf : f ∈ dumpableFormats) (hd : f = AUTO → d ∈ codecFormats) :
+      validateSerializationFormat d f = some (resolve d f) ∧
+      (∀ d', validateSerializationFormat d' (resolve d f) = some (resolve d f)) ∧
+      (libOf (resolve d f)).isSome = true ∧
+      lookup (resolve d f) loadDispatch = lookup (resolve d f) dumpDispatch ∧
+      resolve d f < 128 ∧ resolve d f ≠ RAW := by
+  have hr : resolve d f ∈ codecFormats := by
+    unfold resolve
+    by_cases ha : f = AUTO
+    · simp [ha]; exact hd ha
+    · simp only [ha, ite_false]
+      simp only [dumpableFormats, List.mem_cons] at hf
+      rcases hf with hf | hf
+      · exact absurd hf ha
+      · exact hf
+  obtain ⟨g1, g2, g3, g4, g5, g6, _⟩ := codec_table0 _ hr
+  refine ⟨?_, fun d' => by rw [validateSer_nonAuto d' 0 _ g2]; exact g1, g3, g4, g5, g6⟩
+  by_cases ha : f = AUTO
+  · subst ha
+    simp [validateSer_auto, resolve]
+  · have : resolve d f = f := by simp [resolve, ha]
+    rw [this] at g1 g2 ⊢
+    rw [validateSer_nonAuto d 0 _ g2]; exact g1
+
+theorem raw_table0 :
+    validateSerializationFormat 0 RAW = some RAW ∧ RAW ∉ serializationAuto ∧ lookup RAW dumpDispatch = some .raw ∧
     lookup RAW loadDispatch = some .raw ∧ RAW < 128 := by
   decide
 
-/-- Every compression id resolves to a compression that both functions of compression.go handle with gzip, is a
-    one-byte identifier and is not a serialization format (so that `Load` takes the decompression branch). -/
-theorem compression_table :
-    ∀ cm ∈ compressionFormats,
-      validateCompressionFormat cm = some (resolveCompression cm) ∧
-      validateCompressionFormat (resolveCompression cm) = some (resolveCompression cm) ∧
-      resolveCompression cm ∈ compressGzipCases ∧ resolveCompression cm ∈ decompressGzipCases ∧
-      resolveCompression cm < 128 ∧ resolveCompression cm ≠ RAW ∧
-      validateSerializationFormat (resolveCompression cm) = none := by
+theorem raw_table :
+    (∀ d, validateSerializationFormat d RAW = some RAW) ∧ lookup RAW dumpDispatch = some .raw ∧
+    lookup RAW loadDispatch = some .raw ∧ RAW < 128 := by
+  obtain ⟨h1, h2, h3, h4, h5⟩ := raw_table0
+  exact ⟨fun d => by rw [validateSer_nonAuto d 0 _ h2]; exact h1, h3, h4, h5⟩
+
+theorem gzip_table0 :
+    validateCompressionFormat 0 GZIP = some GZIP ∧ GZIP ∉ compressionAuto ∧
+    GZIP ∈ compressGzipCases ∧ GZIP ∈ decompressGzipCases ∧ GZIP < 128 ∧ GZIP ≠ RAW ∧
+    validateSerializationFormat 0 GZIP = none ∧ GZIP ∉ serializationAuto ∧ GZIP ≠ AUTO := by
   decide
 
-/-- Every format with a mime type: is a valid serialization format handled by one codec on both sides, is not
-    AUTO, and `formatFromAccept` maps its mime type back to it. -/
-theorem mime_table :
+/-- Every compression id resolves (as long as AUTO stands for GZIP) to a compression that both functions of
+    compression.go handle with gzip, is a one-byte identifier and is not a serialization format under any value of
+    the defaults (so that `Load` takes the decompression branch). -/
+theorem compression_table (dc cm : Nat) (hcm : cm ∈ compressionFormats) (hd : cm = AUTO → dc = GZIP) :
+      validateCompressionFormat dc cm = some (resolveCompression dc cm) ∧
+      (∀ dc', validateCompressionFormat dc' (resolveCompression dc cm) = some (resolveCompression dc cm)) ∧
+      resolveCompression dc cm ∈ compressGzipCases ∧ resolveCompression dc cm ∈ decompressGzipCases ∧
+      resolveCompression dc cm < 128 ∧ resolveCompression dc cm ≠ RAW ∧
+      (∀ d', validateSerializationFormat d' (resolveCompression dc cm) = none) := by
+  obtain ⟨g1, g2, g3, g4, g5, g6, g7, g8, g9⟩ := gzip_table0
+  have hr : resolveCompression dc cm = GZIP := by
+    unfold resolveCompression
+    by_cases ha : cm = AUTO
+    · simp [ha]; exact hd ha
+    · simp only [ha, ite_false]
+      simp only [compressionFormats, List.mem_cons, List.mem_nil_iff, or_false] at hcm
+      rcases hcm with hcm | hcm
+      · exact absurd hcm ha
+      · exact hcm
+  rw [hr]
+  refine ⟨?_, fun dc' => by rw [validateComp_nonAuto dc' 0 _ g2]; exact g1, g3, g4, g5, g6,
+    fun d' => by rw [validateSer_nonAuto d' 0 _ g8]; exact g7⟩
+  by_cases ha : cm = AUTO
+  · subst ha
+    rw [validateComp_auto, hd rfl]
+  · have : cm = GZIP := by simpa [resolveCompression, ha] using hr
+    subst this
+    rw [validateComp_nonAuto dc 0 _ g2]; exact g1
+
+theorem mime_table0 :
     ∀ p ∈ formatToMimeType,
-      formatFromAccept p.2 = p.1 ∧ p.1 ≠ 0 ∧ p.1 ≠ AUTO ∧
-      validateSerializationFormat p.1 = some p.1 ∧ (libOf p.1).isSome = true ∧
-      lookup p.1 loadDispatch = lookup p.1 dumpDispatch := by
+      p.2 ≠ [] ∧ (splitOn 44 p.2).findSome? (fun e => lookup (cleanMime e) mimeTypeToFormat) = some p.1 ∧
+      p.1 ≠ 0 ∧ p.1 ≠ AUTO ∧ validateSerializationFormat 0 p.1 = some p.1 ∧ p.1 ∉ serializationAuto ∧
+      (libOf p.1).isSome = true ∧ lookup p.1 loadDispatch = lookup p.1 dumpDispatch := by
   decide
 
-/-- Everything `formatFromAccept` can answer besides AUTO has a mime type. -/
+/-- Everything `formatFromAccept` can answer besides AUTO has a mime type, provided the default has one. -/
 theorem accept_range_table :
-    ∀ f ∈ defaultSerializationFormat :: mimeTypeToFormat.map Prod.snd,
+    ∀ f ∈ mimeFormats ++ mimeTypeToFormat.map Prod.snd,
       f ≠ AUTO ∧ (lookup f formatToMimeType).isSome = true := by
   decide
 
@@ -256,11 +325,11 @@ theorem cleanMime_element (e sub : Str) (h : ElementWithSubtype e sub) : cleanMi
 
 /-! ### the loop of `FormatFromAccept` -/
 
-theorem ffaLoop_spec (es : List Str) (w : Bool) :
-    ffaLoop es w =
+theorem ffaLoop_spec (d : Nat) (es : List Str) (w : Bool) :
+    ffaLoop d es w =
       (match es.findSome? (fun e => lookup (cleanMime e) mimeTypeToFormat) with
        | some f => f
-       | none => if (w || es.any (fun e => cleanMime e == [42])) = true then defaultSerializationFormat else AUTO) := by
+       | none => if (w || es.any (fun e => cleanMime e == [42])) = true then d else AUTO) := by
   induction es generalizing w with
   | nil => simp [ffaLoop, List.findSome?]
   | cons e t ih =>
@@ -304,8 +373,8 @@ theorem findSome?_some_mem {α β : Type} (g : α → Option β) (l : List α) (
       exact ⟨a, List.mem_cons_of_mem _ ha, hg⟩
 
 /-- `formatFromAccept` answers AUTO, the default, or a value of `MimeTypeToFormat`. -/
-theorem formatFromAccept_range (a : Str) :
-    formatFromAccept a = AUTO ∨ formatFromAccept a ∈ defaultSerializationFormat :: mimeTypeToFormat.map Prod.snd := by
+theorem formatFromAccept_range (d : Nat) (a : Str) :
+    formatFromAccept d a = AUTO ∨ formatFromAccept d a ∈ d :: mimeTypeToFormat.map Prod.snd := by
   unfold formatFromAccept
   by_cases ha : a = []
   · simp [ha]
@@ -320,6 +389,26 @@ theorem formatFromAccept_range (a : Str) :
       split
       · exact Or.inr (by simp)
       · exact Or.inl rfl
+
+/-- A header with an element whose cleaned name is in the table is answered without reading the default. -/
+theorem formatFromAccept_hit (d : Nat) (a : Str) (f : Nat) (ha : a ≠ [])
+    (h : (splitOn 44 a).findSome? (fun e => lookup (cleanMime e) mimeTypeToFormat) = some f) :
+    formatFromAccept d a = f := by
+  unfold formatFromAccept
+  simp only [ha, ite_false]
+  rw [ffaLoop_spec, h]
+
+/-- Every format with a mime type: is a valid serialization format handled by one codec on both sides, is not
+    AUTO, and `formatFromAccept` maps its mime type back to it — under every value of the default variable. -/
+theorem mime_table :
+    ∀ p ∈ formatToMimeType,
+      (∀ d, formatFromAccept d p.2 = p.1) ∧ p.1 ≠ 0 ∧ p.1 ≠ AUTO ∧
+      (∀ d, validateSerializationFormat d p.1 = some p.1) ∧ (libOf p.1).isSome = true ∧
+      lookup p.1 loadDispatch = lookup p.1 dumpDispatch := by
+  intro p hp
+  obtain ⟨h1, h2, h3, h4, h5, h6, h7, h8⟩ := mime_table0 p hp
+  exact ⟨fun d => formatFromAccept_hit d _ _ h1 h2, h3, h4,
+    fun d => by rw [validateSer_nonAuto d 0 _ h6]; exact h5, h7, h8⟩
 
 theorem splitOn_append (sep : Nat) (e rest : Str) (h : sep ∉ e) :
     splitOn sep (e ++ sep :: rest) = e :: splitOn sep rest := by
@@ -339,8 +428,8 @@ theorem splitOn_single (sep : Nat) (e : Str) (h : sep ∉ e) : splitOn sep e = [
     simp [splitOn, hy, ih ht]
 
 /-- What `dumpWithoutIdentifier` writes for a format that has a mime type, `LoadAsFormat` reads back. -/
-theorem loadAsFormat_dumpWithoutIdentifier {V : Type} (c : Codec V) (hc : c.Sound) (v : V) (f : Nat) (mime : Str)
-    (hm : lookup f formatToMimeType = some mime) (data : Bytes) (hd : dumpWithoutIdentifier c v f [] = .ok data) :
+theorem loadAsFormat_dumpWithoutIdentifier {V : Type} (cfg : Cfg) (c : Codec V) (hc : c.Sound) (v : V) (f : Nat) (mime : Str)
+    (hm : lookup f formatToMimeType = some mime) (data : Bytes) (hd : dumpWithoutIdentifier cfg c v f [] = .ok data) :
     loadAsFormat c data f = .ok v := by
   obtain ⟨_, _, _, h4, h5, h6⟩ := mime_table (f, mime) (lookup_mem _ _ _ hm)
   simp only at h4 h5 h6
@@ -359,9 +448,9 @@ theorem loadAsFormat_dumpWithoutIdentifier {V : Type} (c : Codec V) (hc : c.Soun
     simp only [loadAsFormat, h6, hdd, hc.dec_enc l v p hp]
 
 /-- ... and it succeeds whenever the codec can encode the value. -/
-theorem dumpWithoutIdentifier_succeeds {V : Type} (c : Codec V) (v : V) (f : Nat) (mime : Str)
+theorem dumpWithoutIdentifier_succeeds {V : Type} (cfg : Cfg) (c : Codec V) (v : V) (f : Nat) (mime : Str)
     (hm : lookup f formatToMimeType = some mime) (henc : ∀ l, (c.enc l v).isSome = true) :
-    ∃ data, dumpWithoutIdentifier c v f [] = .ok data := by
+    ∃ data, dumpWithoutIdentifier cfg c v f [] = .ok data := by
   obtain ⟨_, _, _, h4, h5, _⟩ := mime_table (f, mime) (lookup_mem _ _ _ hm)
   simp only at h4 h5
   obtain ⟨l, hl⟩ := Option.isSome_iff_exists.mp h5
